@@ -156,7 +156,8 @@ func C17(e *Env) {
 		S := img.wantS
 		last := (img.size - 24 - 2048) / S
 		// ranges crossing / beyond EOF end the connection after a correct prefix
-		for _, cross := range [][2]int64{{last, 2}, {last + 1, 1}, {last - 1, 4}, {last + 1000, 2}} {
+		for _, cross := range [][2]int64{{last, 2}, {last + 1, 1}, {last - 1, 4}, {last + 1000, 2},
+			{1 << 21, 1}, {1 << 26, 1}, {1 << 28, 1}, {1 << 31, 1}, {(1 << 32) / S, 1}, {(1<<32)/S + 1, 2}, {1<<32 - 1, 1}, {(1 << 32) / S * 3, 1}} {
 			list = append(list, sess{"crossing EOF", []wire.Req{wire.P(wire.OpOpen, "/"+img.rel), wire.CD(3, 1), wire.CD(uint32(cross[0]), uint32(cross[1]))}, img})
 		}
 	}
